@@ -1,9 +1,10 @@
-// C09 impl driver, dense-matrix part: FieldMatrix<LoopSIMD<double,S>,n,n> (and DynamicMatrix) solve / invert /
-// determinant / mv / norms from the working tree versus the SAME member functions on the scalar
-// FieldMatrix<double,n,n> filled with lane l, for every lane l.  One output line per case:
+// C09 impl driver, dense-matrix part: FieldMatrix<V,n,n> / DynamicMatrix<V> over a simd number type V (LoopSIMD<double,S>, over-aligned,
+// float, nested, Rebind-derived) from the working tree: solve / invert / determinant / products / norms of matrices and vectors, versus the
+// SAME member functions on the scalar FieldMatrix<Sc,n,n> filled with flat lane l, for every lane l.  One output line per case:
 //   <S-lane result> | <scalar result of lane 0> ; <scalar result of lane 1> ; ...
-// doubles as bit patterns (any NaN printed as "nan"), FMatrixError as "EXC FMatrixError".
-// Compile with -DC09_LANES=<S>.
+// floating point as bit patterns (any NaN printed as "nan"), FMatrixError as "EXC FMatrixError".  Lanes are written / read in memory
+// order through std::array::operator[], not through the functions under test.
+// Compile with -DC09_LANES=<S> (V = LoopSIMD<double,S>) or -DC09_VKIND=<k> for the other number types.
 #include <config.h>
 #include <cmath>
 #include <cstdio>
@@ -20,55 +21,90 @@
 #include <dune/common/fvector.hh>
 #include <dune/common/dynmatrix.hh>
 #include <dune/common/dynvector.hh>
+#include "traits.hh"
 
 using namespace Dune;
 typedef std::vector<std::string> Tok;
+#ifndef C09_VKIND
+#define C09_VKIND 0
+#endif
 #ifndef C09_LANES
 #define C09_LANES 2
 #endif
-static const int S = C09_LANES;
-typedef LoopSIMD<double, C09_LANES> V;
+#if C09_VKIND == 0
+typedef LoopSIMD<double, C09_LANES> V;                                    static const char* TAG = "";
+#elif C09_VKIND == 1
+typedef LoopSIMD<double, 4, 32> V;                                        static const char* TAG = "a4";
+#elif C09_VKIND == 2
+typedef LoopSIMD<float, 8, 64> V;                                         static const char* TAG = "f8";
+#elif C09_VKIND == 3
+typedef LoopSIMD<LoopSIMD<double, 2>, 2> V;                               static const char* TAG = "n22";
+#elif C09_VKIND == 4
+typedef LoopSIMD<LoopSIMD<double, 2, 16>, 2> V;                           static const char* TAG = "na22";
+#elif C09_VKIND == 5
+typedef Simd::Rebind<double, LoopSIMD<LoopSIMD<int, 2, 16>, 2, 64> > V;   static const char* TAG = "rb";   // = LoopSIMD<LoopSIMD<double,2,16>,2,64>
+#endif
+typedef Simd::Scalar<V> Sc;
+static const int S = (int) Simd::lanes<V>();
 
 static double unhex(const std::string& s) { std::uint64_t b = std::stoull(s, nullptr, 16); double d; std::memcpy(&d, &b, 8); return d; }
 static std::string hex(double d) { if (d != d) return "nan"; std::uint64_t b; std::memcpy(&b, &d, 8); char buf[32]; std::snprintf(buf, sizeof buf, "%016llx", (unsigned long long) b); return buf; }
-static std::string hex(const V& v) { std::string r; for (int l = 0; l < S; ++l) { if (l) r += " "; r += hex(v[l]); } return r; }
+static std::string hex(float d) { if (d != d) return "nan"; std::uint32_t b; std::memcpy(&b, &d, 4); char buf[32]; std::snprintf(buf, sizeof buf, "%08x", (unsigned) b); return buf; }
+// flat lane l in memory order
+static Sc& at(Sc& x, int) { return x; }
+static const Sc& at(const Sc& x, int) { return x; }
+template<class T, std::size_t N, std::size_t A> static Sc& at(LoopSIMD<T,N,A>& v, int l) { constexpr int inner = (int) Simd::lanes<T>(); return at(v[l / inner], l % inner); }
+template<class T, std::size_t N, std::size_t A> static const Sc& at(const LoopSIMD<T,N,A>& v, int l) { constexpr int inner = (int) Simd::lanes<T>(); return at(v[l / inner], l % inner); }
+static std::string hexv(const V& v) { std::string r; for (int l = 0; l < S; ++l) { if (l) r += " "; r += hex(at(v, l)); } return r; }
 
 template<class MV, class MS, class XV, class XS>
 static std::string go(const std::string& kind, int n, bool piv, const Tok& t, MV& A, MS& As, XV& b, XV& x, XS& bs, XS& xs)
 {
   std::size_t pos = 5;
-  for (int r = 0; r < n; ++r) for (int c = 0; c < n; ++c) for (int l = 0; l < S; ++l) A[r][c][l] = unhex(t.at(pos++));
-  if (kind == "solve" || kind == "mv")
-    for (int r = 0; r < n; ++r) for (int l = 0; l < S; ++l) b[r][l] = unhex(t.at(pos++));
+  for (int r = 0; r < n; ++r) for (int c = 0; c < n; ++c) for (int l = 0; l < S; ++l) at(A[r][c], l) = (Sc) unhex(t.at(pos++));
+  if (kind == "solve" || kind == "mv" || kind == "prods")
+    for (int r = 0; r < n; ++r) for (int l = 0; l < S; ++l) at(b[r], l) = (Sc) unhex(t.at(pos++));
   const MV A0 = A; const XV b0 = b;
   std::string out, tail;
-  auto samebits = [&](const V& p, const V& q) { for (int l = 0; l < S; ++l) if (hex(p[l]) != hex(q[l])) return false; return true; };
   auto inputs_unchanged = [&]() {
-    for (int r = 0; r < n; ++r) { for (int c = 0; c < n; ++c) if (!samebits(A[r][c], A0[r][c])) return false; if (!samebits(b[r], b0[r])) return false; }
+    for (int r = 0; r < n; ++r) { for (int c = 0; c < n; ++c) if (hexv(A[r][c]) != hexv(A0[r][c])) return false; if (hexv(b[r]) != hexv(b0[r])) return false; }
     return true; };
+  auto vec = [&](const XV& y) { std::string o; for (int r = 0; r < n; ++r) { if (r) o += " "; o += hexv(y[r]); } return o; };
+  auto svec = [&](const XS& y) { std::string o; for (int r = 0; r < n; ++r) { if (r) o += " "; o += hex(y[r]); } return o; };
   // ---- the S-lane call
   try {
-    if (kind == "solve") { A.solve(x, b, piv); for (int r = 0; r < n; ++r) { if (r) out += " "; out += hex(x[r]); } if (!inputs_unchanged()) out += " (operand modified)"; }
-    else if (kind == "invert") { MV B = A; B.invert(piv); for (int r = 0; r < n; ++r) for (int c = 0; c < n; ++c) { if (r || c) out += " "; out += hex(B[r][c]); } }
-    else if (kind == "det") { V d = A.determinant(piv); out = hex(d); if (!inputs_unchanged()) out += " (operand modified)"; }
-    else if (kind == "mv") { A.mv(b, x); for (int r = 0; r < n; ++r) { if (r) out += " "; out += hex(x[r]); } }
-    else if (kind == "norms") { V f = A.frobenius_norm2(); V i = A.infinity_norm(); V i2 = A.infinity_norm_real();
-      V v1 = A[0].one_norm(); V v2 = A[0].two_norm2(); V v3 = A[0].infinity_norm(); V v4 = A[0].infinity_norm_real();
-      out = hex(f) + " " + hex(i) + " " + hex(i2) + " " + hex(v1) + " " + hex(v2) + " " + hex(v3) + " " + hex(v4); }
+    if (kind == "solve") { A.solve(x, b, piv); out = vec(x); if (!inputs_unchanged()) out += " (operand modified)"; }
+    else if (kind == "invert") { MV B = A; B.invert(piv); for (int r = 0; r < n; ++r) for (int c = 0; c < n; ++c) { if (r || c) out += " "; out += hexv(B[r][c]); } }
+    else if (kind == "det") { V d = A.determinant(piv); out = hexv(d); if (!inputs_unchanged()) out += " (operand modified)"; }
+    else if (kind == "mv") { A.mv(b, x); out = vec(x); }
+    else if (kind == "prods") {
+      XV y1 = b, y2 = b, y3 = b, y4 = b; A.mtv(b, y1); A.umv(b, y2); A.mmv(b, y3); A.usmv(V(Sc(0.5)), b, y4);
+      V d = b * b; out = vec(y1) + " " + vec(y2) + " " + vec(y3) + " " + vec(y4) + " " + hexv(d); if (!inputs_unchanged()) out += " (operand modified)"; }
+    else if (kind == "norms") {
+      V m1 = A.frobenius_norm2(), m2 = A.frobenius_norm(), m3 = A.infinity_norm(), m4 = A.infinity_norm_real();
+      V v1 = A[0].one_norm(), v2 = A[0].one_norm_real(), v3 = A[0].two_norm2(), v4 = A[0].two_norm(), v5 = A[0].infinity_norm(), v6 = A[0].infinity_norm_real();
+      V w5 = A[n-1].infinity_norm(), w6 = A[n-1].infinity_norm_real();
+      out = hexv(m1) + " " + hexv(m2) + " " + hexv(m3) + " " + hexv(m4) + " " + hexv(v1) + " " + hexv(v2) + " " + hexv(v3) + " " + hexv(v4) + " " + hexv(v5) + " " + hexv(v6)
+          + " " + hexv(w5) + " " + hexv(w6); }
     else return "UNKNOWN-KIND";
   } catch (FMatrixError&) { out = "EXC FMatrixError"; }
   catch (Dune::Exception& e) { out = "EXC Exception"; }
   // ---- the scalar call on every lane
   for (int l = 0; l < S; ++l) {
-    for (int r = 0; r < n; ++r) { for (int c = 0; c < n; ++c) As[r][c] = A0[r][c][l]; bs[r] = b0[r][l]; }
+    for (int r = 0; r < n; ++r) { for (int c = 0; c < n; ++c) As[r][c] = at(A0[r][c], l); bs[r] = at(b0[r], l); }
     std::string o;
     try {
-      if (kind == "solve") { As.solve(xs, bs, piv); for (int r = 0; r < n; ++r) { if (r) o += " "; o += hex(xs[r]); } }
+      if (kind == "solve") { As.solve(xs, bs, piv); o = svec(xs); }
       else if (kind == "invert") { As.invert(piv); for (int r = 0; r < n; ++r) for (int c = 0; c < n; ++c) { if (r || c) o += " "; o += hex(As[r][c]); } }
       else if (kind == "det") { o = hex(As.determinant(piv)); }
-      else if (kind == "mv") { As.mv(bs, xs); for (int r = 0; r < n; ++r) { if (r) o += " "; o += hex(xs[r]); } }
-      else if (kind == "norms") { o = hex(As.frobenius_norm2()) + " " + hex(As.infinity_norm()) + " " + hex(As.infinity_norm_real())
-          + " " + hex(As[0].one_norm()) + " " + hex(As[0].two_norm2()) + " " + hex(As[0].infinity_norm()) + " " + hex(As[0].infinity_norm_real()); }
+      else if (kind == "mv") { As.mv(bs, xs); o = svec(xs); }
+      else if (kind == "prods") {
+        XS y1 = bs, y2 = bs, y3 = bs, y4 = bs; As.mtv(bs, y1); As.umv(bs, y2); As.mmv(bs, y3); As.usmv(Sc(0.5), bs, y4);
+        Sc d = bs * bs; o = svec(y1) + " " + svec(y2) + " " + svec(y3) + " " + svec(y4) + " " + hex(d); }
+      else if (kind == "norms") {
+        o = hex(As.frobenius_norm2()) + " " + hex(As.frobenius_norm()) + " " + hex(As.infinity_norm()) + " " + hex(As.infinity_norm_real())
+          + " " + hex(As[0].one_norm()) + " " + hex(As[0].one_norm_real()) + " " + hex(As[0].two_norm2()) + " " + hex(As[0].two_norm())
+          + " " + hex(As[0].infinity_norm()) + " " + hex(As[0].infinity_norm_real()) + " " + hex(As[n-1].infinity_norm()) + " " + hex(As[n-1].infinity_norm_real()); }
     } catch (FMatrixError&) { o = "EXC FMatrixError"; }
     catch (Dune::Exception& e) { o = "EXC Exception"; }
     tail += (l ? " ; " : "") + o;
@@ -78,14 +114,14 @@ static std::string go(const std::string& kind, int n, bool piv, const Tok& t, MV
 
 template<int n> static std::string fixed(const std::string& kind, bool piv, const Tok& t)
 {
-  FieldMatrix<V,n,n> A(V(0.0)); FieldMatrix<double,n,n> As(0.0);
-  FieldVector<V,n> b(V(0.0)), x(V(0.0)); FieldVector<double,n> bs(0.0), xs(0.0);
+  FieldMatrix<V,n,n> A(V(Sc(0))); FieldMatrix<Sc,n,n> As(Sc(0));
+  FieldVector<V,n> b(V(Sc(0))), x(V(Sc(0))); FieldVector<Sc,n> bs(Sc(0)), xs(Sc(0));
   return go(kind, n, piv, t, A, As, b, x, bs, xs);
 }
 static std::string dynamic(const std::string& kind, int n, bool piv, const Tok& t)
 {
-  DynamicMatrix<V> A(n, n, V(0.0)); DynamicMatrix<double> As(n, n, 0.0);
-  DynamicVector<V> b(n, V(0.0)), x(n, V(0.0)); DynamicVector<double> bs(n, 0.0), xs(n, 0.0);
+  DynamicMatrix<V> A(n, n, V(Sc(0))); DynamicMatrix<Sc> As(n, n, Sc(0));
+  DynamicVector<V> b(n, V(Sc(0))), x(n, V(Sc(0))); DynamicVector<Sc> bs(n, Sc(0)), xs(n, Sc(0));
   return go(kind, n, piv, t, A, As, b, x, bs, xs);
 }
 
@@ -98,16 +134,22 @@ int main(int argc, char** argv)
     while (is >> w) t.push_back(w);
     std::string r = "UNSUPPORTED";
     try {
-      if (t.size() >= 5 && (t[0] == "lu" || t[0] == "dlu") && std::stoi(t[3]) == S) {
+      // first word: lu | dlu, optionally followed by :<type tag>
+      std::string head = t.empty() ? "" : t[0], tag;
+      auto c = head.find(':'); if (c != std::string::npos) { tag = head.substr(c + 1); head = head.substr(0, c); }
+      if (t.size() >= 5 && (head == "lu" || head == "dlu") && tag == TAG && std::stoi(t[3]) == S) {
         int n = std::stoi(t[2]); bool piv = t[4] == "1";
-        if (t[0] == "dlu") r = dynamic(t[1], n, piv, t);
+        if (t[1] == "traits") r = c09_traits_line<V>() + " | fm_hasnan=" + (HasNaN<typename FieldMatrix<V,2,2>::value_type>::value ? "1" : "0");
+        else if (head == "dlu") r = dynamic(t[1], n, piv, t);
         else switch (n) {
           case 1: r = fixed<1>(t[1], piv, t); break;
           case 2: r = fixed<2>(t[1], piv, t); break;
           case 3: r = fixed<3>(t[1], piv, t); break;
           case 4: r = fixed<4>(t[1], piv, t); break;
           case 5: r = fixed<5>(t[1], piv, t); break;
+#if C09_VKIND == 0
           case 6: r = fixed<6>(t[1], piv, t); break;
+#endif
         }
       }
     } catch (std::exception& e) { r = std::string("HARNESS-ERROR ") + e.what(); }
